@@ -1,6 +1,6 @@
 (* Property C18.  Only theorem statements closed by `exact`, each followed by Print Assumptions. *)
 From Coq Require Import List ListDec Bool PArith Permutation.
-From C18 Require Import Model Proofs ProofsInverse ProofsDir ProofsGraph ProofsPkg ProofsDirSound ProofsSort ProofsDirExact ProofsPkgExact Statement.
+From C18 Require Import Model Proofs ProofsInverse ProofsDir ProofsGraph ProofsPkg ProofsDirSound ProofsSort ProofsDirExact ProofsPkgExact ProofsNs Statement.
 Import ListNotations.
 
 (* load_graph seeds the graph without error exactly when no two sources share a module name (any number of sources) *)
@@ -194,3 +194,41 @@ Proof.
   - intros s H. repeat (destruct H as [<-|H]; [reflexivity|]). contradiction.
   - split; [vm_compute; reflexivity | split; reflexivity].
 Qed.
+
+(* the inverse law under --namespace-packages, with or without --explicit-package-bases and for any MYPYPATH / cwd (the
+   bases are `mypy_path o ++ [cwd o]`): exact side condition valid_names; the answer may be the namespace directory n beside
+   n.py[i] only in this mode *)
+Theorem crawl_find_inverse_namespace : forall o t f m b,
+  ns o = true -> valid_names t = true -> isfile t f = true -> py_path f = true ->
+  crawl_up o t f = Ok (m, b) -> m <> [] ->
+  exists g, find_module o t [b] m = Found g /\ rel_ok o f g = true.
+Proof. intros o t f m b _. exact (crawl_find_inverse_main o t f m b). Qed.
+Print Assumptions crawl_find_inverse_namespace.
+Example crawl_find_inverse_namespace_ex :
+  let o := {| ns := true; explicit := true; mypy_path := []; cwd := [dn w_] |} in
+  let t := [((w_, NoExt), Dir [((a_, NoExt), Dir [((b_, Py), File)])])] in
+  valid_names t = true /\ crawl_up o t [(b_, Py); dn a_; dn w_] = Ok ([a_; b_], [dn w_]) /\
+  find_module o t [[dn w_]] [a_; b_] = Found [(b_, Py); dn a_; dn w_].
+Proof. repeat split. Qed.
+
+(* exact form on trees without the shadow pattern (every mode): the finder returns the stub n.pyi when it exists and the
+   module file itself otherwise - never a package or a namespace directory *)
+Theorem crawl_find_exact : forall o t n e rp m b,
+  valid_names t = true -> no_shadow t = true ->
+  isfile t ((n, e) :: rp) = true -> is_py e = true -> is_init n = false ->
+  crawl_up o t ((n, e) :: rp) = Ok (m, b) ->
+  find_module o t [b] m = Found (if isfile t ((n, Pyi) :: rp) then (n, Pyi) :: rp else (n, e) :: rp).
+Proof. exact crawl_find_exact_lemma. Qed.
+Print Assumptions crawl_find_exact.
+
+(* the side condition is necessary: with a directory that is not an identifier ("a-stubs": crawl_up strips the suffix) the
+   inverse law fails in every mode - w/{ a-stubs/{ __init__.py b.py } }: module a.b, base w, find_module [w] a.b = NotFound *)
+Theorem crawl_find_inverse_needs_valid_names :
+  exists t f m b, wf_node (Dir t) = true /\ no_shadow t = true /\ valid_names t = false /\ isfile t f = true /\ py_path f = true /\
+    forall nsb, let o := {| ns := nsb; explicit := false; mypy_path := []; cwd := [] |} in
+                crawl_up o t f = Ok (m, b) /\ find_module o t [b] m = NotFound.
+Proof.
+  exists tree_stubs_dir, [(b_, Py); dn (Stubs 1%positive); dn w_], [a_; b_], [dn w_].
+  destruct stubs_dir_witness as (W & S & V & F & H). repeat split; auto; apply H.
+Qed.
+Print Assumptions crawl_find_inverse_needs_valid_names.
